@@ -465,6 +465,88 @@ def check_sched(case):
 
 
 
+
+def check_shared_record(case):
+  """case = {'sharedrec': n_threads, 'msgs': k, 'plan': {...}}: the threads of ONE run (phase thread, a plug's background
+  thread, a monitor) log through the run's loggers at the same time.  Every message is in the record once, each thread's
+  messages in its own order, and the record's cached base-type view lists the same messages in the same order as the
+  record itself."""
+  from vf import vmode  # pylint: disable=g-import-not-at-top
+  from vf import vsched as V  # pylint: disable=g-import-not-at-top
+  import threading as real_threading  # pylint: disable=g-import-not-at-top
+  r = CaseResult()
+  vmode.setup()
+  from openhtf.core import test_record  # pylint: disable=g-import-not-at-top
+  from openhtf.util import logs  # pylint: disable=g-import-not-at-top
+  if not _SCHED['ready']:
+    V.install_proxies([logging])
+    _SCHED['ready'] = True
+  V.monitor_lines(V.code_objects_of(logs.initialize_record_handler, logs.remove_record_handler, logs.get_record_logger_for,
+                                    logs.RecordHandler, logs.TestUidFilter, test_record.TestRecord.add_log_record))
+  htf_logger = logging.getLogger('openhtf')
+  saved_level = htf_logger.level
+  htf_logger.setLevel(logging.DEBUG)
+  n, k = case['sharedrec'], case['msgs']
+  plan = {int(a): b for a, b in (case.get('plan') or {}).items()}
+
+  def fn(s):
+    rec = test_record.TestRecord(dut_id='D', station_id='st')
+    uid = 'uid-shared-x'
+    logs.initialize_record_handler(uid, rec, lambda: None)
+    root = logs.get_record_logger_for(uid)
+    loggers = [root.getChild('phase.p'), root.getChild('plug.Helper'), root][:n]
+    errs = []
+
+    def worker(i):
+      try:
+        for j in range(k):
+          loggers[i].info('thread %d message %d', i, j)
+      except Exception as e:  # pylint: disable=broad-except
+        errs.append(repr(e))
+
+    ths = [real_threading.Thread(target=worker, args=(i,), name='logger%d' % i) for i in range(n)]
+    for t in ths:
+      t.daemon = True
+      t.start()
+    for t in ths:
+      t.join()
+    logs.remove_record_handler(uid)
+    return [l.message for l in rec.log_records], [d['message'] for d in rec.as_base_types()['log_records']], errs
+
+  try:
+    s = V.Scheduler(plan=plan, time_limit=1e4, max_steps=100000)
+
+    def main():
+      with V.module_locks(logs):
+        return fn(s)
+
+    res, exc = s.run(main, watchdog_s=15.0)
+  finally:
+    htf_logger.setLevel(saved_level)
+    htf_logger.handlers[:] = [h for h in htf_logger.handlers if not isinstance(h, logs.RecordHandler)]
+  r.nontrivial = bool(s.effective_preemptions)
+  r.classes = ['shared-record', 'threads:%d' % n, 'msgs:%d' % k, 'preemptions:%d' % min(len(s.effective_preemptions), 3)]
+  if s.failure is not None:
+    if s.failure[0] in ('deadlock', 'steplimit'):
+      r.bad('C19/shared-record/hang', s.failure[1][:300])
+      return r, s
+    raise RuntimeError('scheduler failure %r' % (s.failure,))
+  if exc is not None:
+    raise exc
+  in_record, in_view, errs = res
+  tag = 'threads=%d msgs=%d plan=%r' % (n, k, case.get('plan'))
+  if errs:
+    r.bad('C19/shared-record/raised', '%s: %s' % (tag, errs[0]))
+  for i in range(n):
+    want = ['thread %d message %d' % (i, j) for j in range(k)]
+    if [m for m in in_record if m.startswith('thread %d ' % i)] != want:
+      r.bad('C19/shared-record/lost-duplicated-or-reordered', '%s: thread %d logged %r, the record holds %r' % (tag, i, want, in_record))
+      break
+  if in_view != in_record:
+    r.bad('C19/shared-record/view-differs-from-record', '%s: record %r, serialized view %r' % (tag, in_record, in_view))
+  return r, s
+
+
 # ------------------------------------------------------------------ MAC addresses outside the message proper
 EXC_MAC_CASES = [{'excmac': where, 'mac': i, 'logger': lk} for where in ('exception-text', 'exception-arg', 'stack-info-caller', 'chained-cause')
                  for i in range(len(MACS)) for lk in ('record', 'phase', 'framework')]
@@ -556,6 +638,8 @@ def plan(tier, seed):
     for sh in range(nsh):
       jobs.append({'kind': 'sched', 'name': 'sched.%d.%d.%d' % (n, k, sh), 'slots': n, 'msgs': k, 'bound': bound, 'shard': sh, 'nshards': nsh})
   jobs.append({'kind': 'verbosity', 'name': 'verbosity'})
+  for nthreads, k in ((2, 1), (2, 2), (3, 1)):
+    jobs.append({'kind': 'sharedrec', 'name': 'sharedrec.%d.%d' % (nthreads, k), 'threads': nthreads, 'msgs': k, 'bound': 2 if (nthreads, k) == (2, 1) and not q else 1})
   jobs.append({'kind': 'excmac', 'name': 'excmac'})
   for i in range(8):
     jobs.append({'kind': 'hist', 'name': 'hist%d' % i, 'hseed': seed * 1000 + i, 'n': 500 if q else 12000})
@@ -569,6 +653,24 @@ def run_job(job, acct):
   if job['kind'] == '_regress':
     from vf import runner  # pylint: disable=g-import-not-at-top
     runner.run_regress(sys.modules[__name__], job, acct)
+  elif job['kind'] == 'sharedrec':
+    import itertools  # pylint: disable=g-import-not-at-top
+    base = {'sharedrec': job['threads'], 'msgs': job['msgs'], 'plan': {}}
+    r0, s0 = check_shared_record(base)
+    acct.case(base, r0.nontrivial, r0.classes)
+    for sig, detail in r0.violations:
+      (acct.known if sig in known else acct.violation)(sig, base, detail)
+    npts = s0.k + 2
+    for b in range(1, job['bound'] + 1):
+      for ks in itertools.combinations(range(npts), b):
+        for cs in itertools.product(range(job['threads'] + 1), repeat=b):
+          case = dict(base, plan={str(kk): c for kk, c in zip(ks, cs)})
+          r, _ = check_shared_record(case)
+          acct.case(case, r.nontrivial, r.classes)
+          for sig, detail in r.violations:
+            (acct.known if sig in known else acct.violation)(sig, case, detail)
+    acct.exhaustive_parts.append('%d threads of one run logging %d message(s) each: all schedules with <=%d preemptions over %d yield points' % (
+        job['threads'], job['msgs'], job['bound'], npts))
   elif job['kind'] == 'excmac':
     for case in EXC_MAC_CASES:
       r = check_exc_mac(case)
@@ -610,6 +712,8 @@ def run_job(job, acct):
 
 
 def replay(case):
+  if 'sharedrec' in case:
+    return check_shared_record(case)[0].violations
   if 'excmac' in case:
     return check_exc_mac(case).violations
   if 'verbosity' in case:
